@@ -1,287 +1,307 @@
-import JunoModel.C17.ProofsLife
+import JunoModel.C17.ProofsMisc
 /-!
 C17 — the recorded L1 head is always a finalised, still-canonical L1 state commit.
-Property theorems (statements only; the proofs are in `Proofs*.lean`).
+Property theorems about the code AS IT IS in /repo (`guard = true`, i.e. with commit 5084dce);
+statements only, proofs in `Proofs*.lean`.
 
-Vocabulary (`Spec.lean`): a trace `tr : List Ev` is the sequence of inputs the client's event loop
-has processed — values received on the update channel (`upd`, an update or a removal notice),
-completed finalised-height polls (`tick F`), subscription errors, resubscription attempts, failed
-polls. `run g s tr` is the state of the client after `tr`; `g = false` is the code at the pinned
-commit, `g = true` the variant with the proposed repair (`setL1Head` skips a candidate that
-commits an older Starknet block than the stored head). `live tr` are the delivered events not
-subsequently reported removed, `IsTop F L e` says `e` is the one with the highest L1 block at or
-below `F` (latest delivered among several of that block).
+Vocabulary (`Spec.lean`). A trace `tr : List Ev` is the sequence of inputs the client's event loop
+has processed (`upd`: update or removal notice received; `tick F`: completed finalised-height poll;
+subscription errors, resubscription attempts, failed polls). `run true s tr` is the client after `tr`.
 
-Provider assumptions granted by the property: `FinMono` + `NoUnfinalise` (never un-finalises);
-removal notices are delivered (that is what makes `live` the right set). `L2Ordered` is a fact
-about the Starknet core contract (commits are sequential). `InOrder` is NOT granted by the
-property: the code at the pinned commit needs it (`head_spec_partial`), and violates the property
-without it (`head_spec_needs_delivery_order`, lead L11); the repaired variant does not need it
-(`head_spec_guarded`, `l2_monotone_guarded`).
+* `LiveExact tr n u`   — THE PROPERTY'S NOTION: `u` was delivered at position `n` and no later removal
+                         notice names it (same L1 block, Starknet block, hash, root);
+* `IsTopExact F tr n u` — `(n,u)` is the `LiveExact` event with the highest L1 block ≤ F, and of the
+                         several events of that block the one delivered last;
+* `live tr`            — the client's coarser view (a notice for block b retires everything ≥ b);
+                         `live ⊆ LiveExact`, equal on `Settled` traces.
+
+Provider assumptions granted by the property: `FinMono` + `NoUnfinalise` (never un-finalises), removal
+notices are delivered. `L2OrderedStrict` is a fact about the core contract and L1 log order (a later
+log commits a later Starknet block). `Settled` (a removal-ORDER assumption: no replacement log
+overtakes a removal notice) is NOT granted; juno needs it (`head_spec_partial`) and violates the
+property without it (`head_spec_needs_removal_order`).
+
+Property clauses and where they are:
+  head = highest delivered / not removed / finalised event ........ `head_spec_partial` (+ negation), `head_spec_life`
+  never above the finalised height, never a removed log ........... `never_above_finalised`, `head_still_canonical`
+  never regresses to an older Starknet block ...................... `l2_monotone`
+  several events per Ethereum block ............................... `IsTopExact` in `head_spec_partial` (latest delivered)
+  start-up catch-up, chunk sizes, failing log queries ............. `catchup_*`, `life_*`
+  stored head of an earlier life ................................... `head_spec_partial` (`h0`), `head_spec_life`
+  failing database under `setL1Head` .............................. `db_fault_keeps_head`
+  subscription failures / resubscriptions ......................... the model's transitions are identities by
+      transcription (`run_filter_data` in Proofs); evidence is the harness, not a theorem
+  the geth forwarding layer ....................................... model `forwardStream = map decodeLog` is a
+      transcription (`forward_map_facts` in Proofs); evidence is the harness
+  consumers (finality status, pruning anchor) ..................... NOT covered beyond `feed_in_order`
 -/
 namespace Juno.C17.Props
 open Juno.C17
 
-/-! ## What "delivered and not subsequently removed" means -/
+/-! ## the client's view versus the property's -/
 
-/-- `live tr` is exactly: delivered at position `n`, an update (not a removal notice), and no
-removal notice at or below its L1 block was delivered afterwards. -/
-theorem live_spec (tr : List Ev) (n : Nat) (u : SU) :
-    (n, u) ∈ live tr ↔
-      ∃ a b, tr = a ++ Ev.upd u :: b ∧ a.length = n ∧ u.removed = false ∧
-        ∀ r, Ev.upd r ∈ b → r.removed = true → u.l1 < r.l1 :=
-  mem_live_iff tr n u
+/-- Everything the client still regards as valid is, in the property's sense, delivered and not
+subsequently reported removed; the converse holds exactly on traces where no replacement log has
+overtaken a removal notice. -/
+theorem client_view_vs_property (tr : List Ev) (n : Nat) (u : SU) :
+    ((n, u) ∈ live tr → LiveExact tr n u) ∧ (Settled tr → (LiveExact tr n u → (n, u) ∈ live tr)) :=
+  ⟨live_sub_exact, fun hs => (live_iff_exact hs n u).mpr⟩
 
-/-! ## never above the finalised height, never a removed log (all traces, both variants) -/
+/-! ## never above the finalised height, never a removed log -/
 
-/-- Whatever the provider does (no assumption at all): the stored head is either the one found at
-start-up or the commit of an event that, at some completed poll, was delivered, not reported
-removed, and at or below the finalised height that poll reported. -/
-theorem never_above_finalised (g : Bool) (h0 : Option Head) (tr : List Ev) :
-    (run g (State.init h0) tr).head = h0 ∨
-    ∃ a F b, tr = a ++ Ev.tick F :: b ∧ ∃ e ∈ live a, e.2.l1 ≤ F ∧
-      (run g (State.init h0) tr).head = some e.2.toHead :=
-  head_origin g h0 tr
+/-- No assumption on the provider at all: the stored head is the one found at start-up, or the
+commit of an event that at some completed poll was delivered, not reported removed, and at or
+below the finalised height that poll reported. -/
+theorem never_above_finalised (h0 : Option Head) (tr : List Ev) :
+    (run true (State.init h0) tr).head = h0 ∨
+    ∃ a F b, tr = a ++ Ev.tick F :: b ∧ ∃ n u, LiveExact a n u ∧ u.l1 ≤ F ∧
+      (run true (State.init h0) tr).head = some u.toHead := by
+  rcases head_origin true h0 tr with h | ⟨a, F, b, hab, e, he, hF, hh⟩
+  · exact Or.inl h
+  · exact Or.inr ⟨a, F, b, hab, e.1, e.2, live_sub_exact he, hF, hh⟩
 
-/-- Updates and removal notices by themselves never move the stored head (only polls do). -/
-theorem update_keeps_head (g : Bool) (s : State) (u : SU) : (step g s (.upd u)).head = s.head :=
-  step_upd_head g s u
-
-/-- The listener / L1-head feed is told exactly the head that is stored, and the stored head
-never changes without a notification. -/
-theorem notification_is_stored_head (g : Bool) (s : State) (F : Nat) :
-    (∀ h, (setL1Head g s F).2 = some h → (setL1Head g s F).1.head = some h) ∧
-    ((setL1Head g s F).2 = none → (setL1Head g s F).1.head = s.head) := by
-  unfold setL1Head
-  cases pickMax F s.buf with
-  | none => simp
-  | some c => by_cases hs : skipCandidate g s.head c = true <;> simp [hs]
+/-- "Still canonical": for a provider that never un-finalises, at EVERY moment the stored head is
+the one found at start-up or the commit of an event that is live with respect to the WHOLE trace
+so far (no removal notice, exact or by block, has hit it) and lies at or below the last reported
+finalised height. No hypothesis on delivery order or on the commits. -/
+theorem head_still_canonical (h0 : Option Head) (tr : List Ev) (hF : FinMono tr)
+    (hU : NoUnfinalise tr) :
+    (run true (State.init h0) tr).head = h0 ∨
+    ∃ n u, (n, u) ∈ live tr ∧ LiveExact tr n u ∧ (∃ F, lastFin tr = some F ∧ u.l1 ≤ F) ∧
+      (run true (State.init h0) tr).head = some u.toHead := by
+  rcases head_consumed h0 tr hF hU with h | ⟨e, he, hh⟩
+  · exact Or.inl h
+  · exact Or.inr ⟨e.1, e.2, he.1, live_sub_exact he.1, consumedLe tr hF hU e he, hh⟩
 
 /-! ## head_spec -/
 
 /-
-Full-strength statement (the property as written), NOT true of the code at the pinned commit:
+Full-strength statement (the property as written), NOT true of juno:
 
-  theorem head_spec (h0) (tr) (F) (hF : FinMono (tr ++ [.tick F])) (hU : NoUnfinalise (tr ++ [.tick F])) :
-      ((∀ e ∈ live tr, ¬ e.2.l1 ≤ F) → (run false (State.init h0) (tr ++ [.tick F])).head = h0) ∧
-      (∀ e, IsTop F (live tr) e → (run false (State.init h0) (tr ++ [.tick F])).head = some e.2.toHead)
+  theorem head_spec … (hF : FinMono …) (hU : NoUnfinalise …) (hL : L2OrderedStrict …) (hS : StoredOrd …) :
+      <conclusion of head_spec_partial>
 
-It needs the delivery-order hypothesis `InOrder` (below); `head_spec_needs_delivery_order` is the
-counterexample without it. The defect was repaired in /repo by commit 5084dce: the code as it is
-NOW is `g = true`, for which `head_spec_guarded`, `head_spec_stored`, `head_spec_life` and
-`l2_monotone_guarded` are the full-strength statements; `head_spec_partial` /
-`l2_monotone_partial` document the code before the repair.
+i.e. without `Settled`. `head_spec_needs_removal_order` is the counterexample.
 -/
 
-/-- After every completed poll the stored head is the commit of the delivered, not removed event
-with the highest L1 block at or below the reported finalised height (the latest delivered one of
-that block); if there is none it is still the head found at start-up. For the code as it is this
-holds for every trace of a provider that never un-finalises AND delivers in order (`InOrder`). -/
-theorem head_spec_partial (h0 : Option Head) (tr : List Ev) (F : Nat)
+/-- After every completed poll: if no delivered, not removed event at or below the reported
+finalised height lies above the block `b0` of the head stored by an earlier life (`h0`; fresh
+database: `h0 = none`, then: if there is no such event at all), the stored head is still `h0`;
+otherwise it is the commit of exactly THE top event — highest L1 block at or below the finalised
+height, and of the events of that block the one delivered last — and that block is at or above
+`b0`. Holds for every trace (late deliveries, replays, any interleaving; no delivery-order
+hypothesis) of a provider that never un-finalises, on one canonical chain, PROVIDED no replacement
+log has overtaken a removal notice (`Settled`) — hence `_partial`. -/
+theorem head_spec_partial (h0 : Option Head) (b0 : Nat) (tr : List Ev) (F : Nat)
     (hF : FinMono (tr ++ [.tick F])) (hU : NoUnfinalise (tr ++ [.tick F]))
-    (hO : InOrder (tr ++ [.tick F])) :
-    ((∀ e ∈ live tr, ¬ e.2.l1 ≤ F) ∧ (run false (State.init h0) (tr ++ [.tick F])).head = h0) ∨
-    (∃ e, IsTop F (live tr) e ∧
-      (run false (State.init h0) (tr ++ [.tick F])).head = some e.2.toHead) := by
-  have h := headInv h0 (tr ++ [.tick F]) hF hU hO
-  have hl : live (tr ++ [.tick F]) = live tr := by rw [live_snoc]; rfl
-  have hc : ∀ e, Consumed (tr ++ [.tick F]) e ↔ (e ∈ live tr ∧ e.2.l1 ≤ F) := by
-    intro e
-    constructor
-    · intro he
-      obtain ⟨F', hF', hle⟩ := h.consumed_le e he
-      rw [lastFin_snoc] at hF'
-      cases hF'
-      exact ⟨hl ▸ he.1, hle⟩
-    · rintro ⟨h1, h2⟩
-      refine ⟨hl.symm ▸ h1, ?_⟩
-      rw [pend_snoc]
-      simp [pendStep, h2]
-  rcases h.head with ⟨hall, hh⟩ | ⟨e, he, hmax, hh⟩
-  · refine Or.inl ⟨?_, hh⟩
-    intro e he hle
-    exact ((hc e).mpr ⟨he, hle⟩).2 (hall e (hl.symm ▸ he))
-  · refine Or.inr ⟨e, ⟨((hc e).mp he).1, ((hc e).mp he).2, ?_⟩, hh⟩
-    intro c hc1 hc2
-    exact hmax c ((hc c).mpr ⟨hc1, hc2⟩)
-
-/-- The same for the repaired variant, WITHOUT any delivery-order hypothesis (late deliveries,
-replays after a resubscription, any interleaving): the stored head is the commit of an event of
-the highest L1 block at or below the finalised height that has a delivered, not removed event.
-Needs only what the property grants plus sequential commits on L1 (`L2Ordered`). -/
-theorem head_spec_guarded (tr : List Ev) (F : Nat)
-    (hF : FinMono (tr ++ [.tick F])) (hU : NoUnfinalise (tr ++ [.tick F]))
-    (hL : L2Ordered (tr ++ [.tick F])) :
-    ((∀ e ∈ live tr, ¬ e.2.l1 ≤ F) ∧ (run true (State.init none) (tr ++ [.tick F])).head = none) ∨
-    (∃ e ∈ live tr, e.2.l1 ≤ F ∧ (∀ c ∈ live tr, c.2.l1 ≤ F → c.2.l1 ≤ e.2.l1) ∧
-      (run true (State.init none) (tr ++ [.tick F])).head = some e.2.toHead) := by
-  have h := guardHead (tr ++ [.tick F]) hF hU hL
-  have hle := consumedLe (tr ++ [.tick F]) hF hU
-  have hl : live (tr ++ [.tick F]) = live tr := by rw [live_snoc]; rfl
-  have hc : ∀ e, Consumed (tr ++ [.tick F]) e ↔ (e ∈ live tr ∧ e.2.l1 ≤ F) := by
-    intro e
-    constructor
-    · intro he
-      obtain ⟨F', hF', hle'⟩ := hle e he
-      rw [lastFin_snoc] at hF'
-      cases hF'
-      exact ⟨hl ▸ he.1, hle'⟩
-    · rintro ⟨h1, h2⟩
-      refine ⟨hl.symm ▸ h1, ?_⟩
-      rw [pend_snoc]
-      simp [pendStep, h2]
-  rcases h with ⟨hall, hh⟩ | ⟨e, he, hmax, hh⟩
-  · refine Or.inl ⟨?_, hh⟩
-    intro e he hle'
-    exact ((hc e).mpr ⟨he, hle'⟩).2 (hall e (hl.symm ▸ he))
-  · refine Or.inr ⟨e, ((hc e).mp he).1, ((hc e).mp he).2, ?_, hh⟩
-    intro c hc1 hc2
-    exact hmax c ((hc c).mpr ⟨hc1, hc2⟩)
-
-/-- Start-up with a head stored by an earlier life of the node (`h0`, the commit of an event of
-L1 block `b0` of the same canonical chain — `StoredOrdered`; the buffer starts empty): after every
-poll the stored head is still `h0` exactly when no delivered, not removed, finalised event lies
-above `b0`; otherwise it is the commit of an event of the highest such block, which is at or above
-`b0`. So a stored head NEWER than everything the catch-up scan or the subscription delivers is
-kept, an OLDER one is replaced, and it never moves back. No delivery-order hypothesis. -/
-theorem head_spec_stored (h0 : Head) (b0 : Nat) (tr : List Ev) (F : Nat)
-    (hF : FinMono (tr ++ [.tick F])) (hU : NoUnfinalise (tr ++ [.tick F]))
-    (hL : L2Ordered (tr ++ [.tick F])) (hS : StoredOrdered h0 b0 (tr ++ [.tick F])) :
-    ((∀ e ∈ live tr, e.2.l1 ≤ F → e.2.l1 ≤ b0) ∧
-      (run true (State.init (some h0)) (tr ++ [.tick F])).head = some h0) ∨
-    (∃ e ∈ live tr, e.2.l1 ≤ F ∧ (∀ c ∈ live tr, c.2.l1 ≤ F → c.2.l1 ≤ e.2.l1) ∧ b0 ≤ e.2.l1 ∧
-      (run true (State.init (some h0)) (tr ++ [.tick F])).head = some e.2.toHead) := by
+    (hL : L2OrderedStrict (tr ++ [.tick F])) (hS : StoredOrd h0 b0 (tr ++ [.tick F]))
+    (hT : Settled tr) :
+    ((∀ n u, LiveExact tr n u → u.l1 ≤ F → h0 ≠ none ∧ u.l1 ≤ b0) ∧
+      (run true (State.init h0) (tr ++ [.tick F])).head = h0) ∨
+    (∃ n u, IsTopExact F tr n u ∧ (h0 ≠ none → b0 ≤ u.l1) ∧
+      (run true (State.init h0) (tr ++ [.tick F])).head = some u.toHead) := by
   have hc := fun e => consumed_after_tick (tr := tr) (F := F) hF hU e
-  rcases guardHeadS h0 b0 (tr ++ [.tick F]) hF hU hL hS with ⟨hall, hh⟩ | ⟨e, he, hmax, hb, hh⟩
-  · exact Or.inl ⟨fun e he hle => hall e ((hc e).mpr ⟨he, hle⟩), hh⟩
-  · exact Or.inr ⟨e, ((hc e).mp he).1, ((hc e).mp he).2,
-      fun c h1 h2 => hmax c ((hc c).mpr ⟨h1, h2⟩), hb, hh⟩
+  have hx := fun n u => live_iff_exact hT n u
+  rcases (guardTop h0 b0 (tr ++ [.tick F]) hF hU hL hS).head with ⟨hall, hh⟩ | ⟨e, he, hmax, hb, hh⟩
+  · refine Or.inl ⟨?_, hh⟩
+    intro n u hl hle
+    exact hall (n, u) ((hc (n, u)).mpr ⟨(hx n u).mpr hl, hle⟩)
+  · refine Or.inr ⟨e.1, e.2, ⟨(hx e.1 e.2).mp ((hc e).mp he).1, ((hc e).mp he).2, ?_⟩, hb, hh⟩
+    intro m v hl hle
+    exact hmax (m, v) ((hc (m, v)).mpr ⟨(hx m v).mpr hl, hle⟩)
 
-/-! ### the defect (lead L11) as a proved negation with a concrete witness -/
+/-! ### the defect: a replacement log that overtakes a removal notice is lost -/
 
-def e100 : SU := ⟨50, 0x500, 0x1500, 100, false⟩
-def e90 : SU := ⟨40, 0x400, 0x1400, 90, false⟩
-/-- finalised height 200; the event of L1 block 100 is delivered and recorded; then the event of
-L1 block 90 is delivered late. -/
-def lateTrace : List Ev := [.upd e100, .tick 200, .upd e90]
+def logA : SU := ⟨1, 0x10, 0x1010, 5, false⟩
+def logB : SU := ⟨2, 0x20, 0x1020, 6, false⟩
+/-- the log of the replacement chain in L1 block 6 -/
+def logB' : SU := ⟨2, 0x21, 0x1021, 6, false⟩
+def remB : SU := { logB with removed := true }
+/-- A@5 and B@6 delivered, finalised 3; L1 block 6 is reorged: the replacement log B' is delivered
+BEFORE the removal notice of B. -/
+def overtakeTrace : List Ev := [.upd logA, .upd logB, .tick 3, .upd logB', .upd remB]
 
-theorem lateTrace_finMono : FinMono (lateTrace ++ [.tick 200]) := by
-  have h1 : FinMono ([] ++ [Ev.upd e100]) := finMono_snoc finMono_nil (by intro F h; cases h)
-  have h2 : FinMono ([] ++ [Ev.upd e100] ++ [Ev.tick 200]) :=
-    finMono_snoc h1 (by intro F _ F' h'; simp [lastFin, lastFinR, finStep] at h')
-  have h3 : FinMono ([] ++ [Ev.upd e100] ++ [Ev.tick 200] ++ [Ev.upd e90]) :=
-    finMono_snoc h2 (by intro F h; cases h)
-  exact finMono_snoc h3 (by
-    intro F h F' h'
-    cases h
-    change some 200 = some F' at h'
-    cases h'
-    exact Nat.le_refl _)
+theorem overtake_hyps : FinMono (overtakeTrace ++ [.tick 10]) ∧
+    NoUnfinalise (overtakeTrace ++ [.tick 10]) ∧ L2OrderedStrict (overtakeTrace ++ [.tick 10]) := by
+  refine ⟨?_, ?_, ?_⟩
+  · have h1 : FinMono ([] ++ [Ev.upd logA]) := finMono_snoc finMono_nil (by intro F h; cases h)
+    have h2 := finMono_snoc (x := Ev.upd logB) h1 (by intro F h; cases h)
+    have h3 := finMono_snoc (x := Ev.tick 3) h2 (by
+      intro F _ F' h'; change none = some F' at h'; cases h')
+    have h4 := finMono_snoc (x := Ev.upd logB') h3 (by intro F h; cases h)
+    have h5 := finMono_snoc (x := Ev.upd remB) h4 (by intro F h; cases h)
+    exact finMono_snoc h5 (by
+      intro F h F' h'
+      cases h
+      change some 3 = some F' at h'
+      cases h'
+      decide)
+  · have h1 : NoUnfinalise ([] ++ [Ev.upd logA]) :=
+      noUnfinalise_snoc noUnfinalise_nil (by intro r h hr; cases h; cases hr)
+    have h2 := noUnfinalise_snoc (x := Ev.upd logB) h1 (by intro r h hr; cases h; cases hr)
+    have h3 := noUnfinalise_snoc (x := Ev.tick 3) h2 (by intro r h; cases h)
+    have h4 := noUnfinalise_snoc (x := Ev.upd logB') h3 (by intro r h hr; cases h; cases hr)
+    have h5 := noUnfinalise_snoc (x := Ev.upd remB) h4 (by
+      intro r h _ F hF
+      cases h
+      change some 3 = some F at hF
+      cases hF; decide)
+    exact noUnfinalise_snoc h5 (by intro r h; cases h)
+  · have h1 : L2OrderedStrict ([] ++ [Ev.upd logA]) :=
+      l2OrderedStrict_snoc l2OrderedStrict_nil (by decide) (by decide)
+    have h2 := l2OrderedStrict_snoc (x := Ev.upd logB) h1 (by decide) (by decide)
+    have h3 := l2OrderedStrict_snoc (x := Ev.tick 3) h2 (by decide) (by decide)
+    have h4 := l2OrderedStrict_snoc (x := Ev.upd logB') h3 (by decide) (by decide)
+    have h5 := l2OrderedStrict_snoc (x := Ev.upd remB) h4 (by decide) (by decide)
+    exact l2OrderedStrict_snoc h5 (by decide) (by decide)
 
-theorem lateTrace_noUnfinalise : NoUnfinalise (lateTrace ++ [.tick 200]) := by
-  intro a r b hab hr
-  have : Ev.upd r ∈ lateTrace ++ [.tick 200] := by rw [hab]; simp
-  simp [lateTrace] at this
-  rcases this with h | h <;> (rw [h] at hr; cases hr)
+/-- Without `Settled` juno violates `head_spec`: the provider never un-finalises, every reorged
+log it delivered gets its removal notice (B), the commits are those of one canonical chain — the
+replacement log B' (L1 block 6, Starknet block 2) is delivered, is never reported removed and is
+finalised at the last poll, so the property demands it as head; juno's head is the commit of A
+(L1 block 5, Starknet block 1), because the notice of B deleted every buffered entry at or above
+L1 block 6, B' included. -/
+theorem head_spec_needs_removal_order :
+    FinMono (overtakeTrace ++ [.tick 10]) ∧ NoUnfinalise (overtakeTrace ++ [.tick 10]) ∧
+    L2OrderedStrict (overtakeTrace ++ [.tick 10]) ∧ ¬ Settled overtakeTrace ∧
+    IsTopExact 10 overtakeTrace 3 logB' ∧
+    (run true (State.init none) (overtakeTrace ++ [.tick 10])).head = some logA.toHead ∧
+    logA.toHead ≠ logB'.toHead := by
+  refine ⟨overtake_hyps.1, overtake_hyps.2.1, overtake_hyps.2.2, ?_, ?_, by decide, by decide⟩
+  · intro hs
+    obtain ⟨r, hr, hrm, hsame⟩ := hs [.upd logA, .upd logB, .tick 3] logB' [.upd remB] rfl rfl
+      ⟨remB, by simp, rfl, by decide⟩
+    simp at hr
+    subst hr
+    exact absurd hsame.2.2.1 (by decide)
+  · refine ⟨⟨[.upd logA, .upd logB, .tick 3], [.upd remB], rfl, rfl, rfl, ?_⟩, by decide, ?_⟩
+    · intro r hr _ hsame
+      simp at hr
+      subst hr
+      exact absurd hsame.2.2.1 (by decide)
+    · intro m v ⟨a, b, hab, hlen, hrm, _⟩ _
+      -- the updates of the trace are A (position 0), B (1), B' (3); the notice is not an update
+      have hm : m < 5 := by
+        have : (a ++ Ev.upd v :: b).length = 5 := by rw [← hab]; rfl
+        simp at this; omega
+      have hget : overtakeTrace[m]? = some (Ev.upd v) := by
+        rw [hab, ← hlen]; simp
+      match m, hm with
+      | 0, _ => simp [overtakeTrace] at hget; subst hget; exact Or.inl (by decide)
+      | 1, _ => simp [overtakeTrace] at hget; subst hget; exact Or.inr ⟨rfl, by decide⟩
+      | 2, _ => simp [overtakeTrace] at hget
+      | 3, _ => simp [overtakeTrace] at hget; subst hget; exact Or.inr ⟨rfl, Nat.le_refl _⟩
+      | 4, _ =>
+        simp [overtakeTrace] at hget
+        subst hget
+        exact absurd hrm (by decide)
 
-theorem lateTrace_l2Ordered : L2OrderedStrict (lateTrace ++ [.tick 200]) := by
-  have h1 : L2OrderedStrict ([] ++ [Ev.upd e100]) :=
-    l2OrderedStrict_snoc l2OrderedStrict_nil (by decide) (by decide)
-  have h2 : L2OrderedStrict ([] ++ [Ev.upd e100] ++ [Ev.tick 200]) :=
-    l2OrderedStrict_snoc h1 (by decide) (by decide)
-  have h3 : L2OrderedStrict ([] ++ [Ev.upd e100] ++ [Ev.tick 200] ++ [Ev.upd e90]) :=
-    l2OrderedStrict_snoc h2 (by decide) (by decide)
-  exact l2OrderedStrict_snoc h3 (by decide) (by decide)
+/-! ## one whole life of the client: chain-id gate, catch-up, event loop -/
 
-/-- Without the delivery-order hypothesis the code at the pinned commit violates `head_spec`:
-the provider never un-finalises, reports no removal, the events are consistent with one
-canonical chain — and after the last poll the stored head is the commit of L1 block 90 (Starknet
-block 40) although the event of L1 block 100 (Starknet block 50) is delivered, not removed and
-finalised. The stored head regressed from Starknet block 50 to 40. -/
-theorem head_spec_needs_delivery_order :
-    FinMono (lateTrace ++ [.tick 200]) ∧ NoUnfinalise (lateTrace ++ [.tick 200]) ∧
-    L2OrderedStrict (lateTrace ++ [.tick 200]) ∧
-    IsTop 200 (live lateTrace) (0, e100) ∧
-    (run false (State.init none) lateTrace).head = some e100.toHead ∧
-    (run false (State.init none) (lateTrace ++ [.tick 200])).head = some e90.toHead ∧
-    e90.toHead ≠ e100.toHead ∧ e90.l2 < e100.l2 := by
-  refine ⟨lateTrace_finMono, lateTrace_noUnfinalise, lateTrace_l2Ordered, ?_, by decide,
-    by decide, by decide, by decide⟩
-  refine ⟨by decide, by decide, ?_⟩
-  intro c hc _
-  have : c = (2, e90) ∨ c = (0, e100) := by
-    have : live lateTrace = [(2, e90), (0, e100)] := by decide
-    rw [this] at hc
-    simpa using hc
-  rcases this with rfl | rfl
-  · exact Or.inl (by decide)
-  · exact Or.inr ⟨rfl, Nat.le_refl _⟩
+/-- A whole life under `Run` is ONE trace of the event loop: the logs applied by the catch-up scan
+(and its poll, if it completed) followed by everything received afterwards. -/
+theorem life_is_trace (g : Bool) (s : State) (cfg : Startup) (tr : List Ev) (la f1 : Nat)
+    (hg : ensureChainID cfg.chainId = .proceed) (hla : cfg.latest = some la)
+    (hf : cfg.fin₁ = some f1) :
+    runLife g s cfg tr = run g s (startUpTrace s cfg la f1 ++ tr) :=
+  runLife_trace g s cfg tr la f1 hg hla hf
 
-/-- … and the repaired variant keeps the head of L1 block 100 on the same trace. -/
-theorem guarded_on_late_trace :
-    (run true (State.init none) (lateTrace ++ [.tick 200])).head = some e100.toHead := by decide
+/-- If a height cannot be read the scan is skipped and the life is the event loop alone. -/
+theorem life_skips_catchup (g : Bool) (s : State) (cfg : Startup) (tr : List Ev)
+    (hg : ensureChainID cfg.chainId = .proceed) (h : cfg.latest = none ∨ cfg.fin₁ = none) :
+    runLife g s cfg tr = run g s tr :=
+  runLife_skip g s cfg tr hg h
+
+/-- The catch-up part of a life satisfies the provider hypotheses by itself whenever the node's log
+history is what `eth_getLogs` of one canonical chain returns. -/
+theorem startup_trace_wellbehaved (s : State) (cfg : Startup) (la f1 : Nat)
+    (hn : ∀ u ∈ cfg.hist, u.removed = false)
+    (ho : ∀ x ∈ cfg.hist, ∀ y ∈ cfg.hist, x.l1 < y.l1 → x.l2 < y.l2) :
+    FinMono (startUpTrace s cfg la f1) ∧ NoUnfinalise (startUpTrace s cfg la f1) ∧
+      L2Ordered (startUpTrace s cfg la f1) :=
+  startUpTrace_wellbehaved s cfg la f1 hn ho
+
+/-- `head_spec` for the combined start-up + run trace, fresh database or RESTART with a stored head
+`h0`: whatever the chunk size, wherever a log query failed, whatever is delivered afterwards
+(duplicates of scanned logs, late logs, reorgs) — after every poll of the life the stored head is
+`h0` or the commit of the top event among ALL logs the life has received, scanned or subscribed. -/
+theorem head_spec_life (h0 : Option Head) (b0 : Nat) (cfg : Startup) (tr : List Ev) (la f1 F : Nat)
+    (hg : ensureChainID cfg.chainId = .proceed) (hla : cfg.latest = some la)
+    (hf : cfg.fin₁ = some f1)
+    (hF : FinMono (startUpTrace (State.init h0) cfg la f1 ++ tr ++ [.tick F]))
+    (hU : NoUnfinalise (startUpTrace (State.init h0) cfg la f1 ++ tr ++ [.tick F]))
+    (hL : L2OrderedStrict (startUpTrace (State.init h0) cfg la f1 ++ tr ++ [.tick F]))
+    (hS : StoredOrd h0 b0 (startUpTrace (State.init h0) cfg la f1 ++ tr ++ [.tick F]))
+    (hT : Settled (startUpTrace (State.init h0) cfg la f1 ++ tr)) :
+    ((∀ n u, LiveExact (startUpTrace (State.init h0) cfg la f1 ++ tr) n u → u.l1 ≤ F →
+        h0 ≠ none ∧ u.l1 ≤ b0) ∧
+      (runLife true (State.init h0) cfg (tr ++ [.tick F])).head = h0) ∨
+    (∃ n u, IsTopExact F (startUpTrace (State.init h0) cfg la f1 ++ tr) n u ∧
+      (h0 ≠ none → b0 ≤ u.l1) ∧
+      (runLife true (State.init h0) cfg (tr ++ [.tick F])).head = some u.toHead) := by
+  have e := runLife_trace true (State.init h0) cfg (tr ++ [Ev.tick F]) la f1 hg hla hf
+  rw [e, ← List.append_assoc]
+  exact head_spec_partial h0 b0 _ F hF hU hL hS hT
 
 /-! ## l2_monotone -/
 
-/-- Repaired variant: the Starknet block number of the stored head never decreases — for every
-state, every trace, no assumption on the provider (`none`, nothing stored, is the bottom). -/
-theorem l2_monotone_guarded (s : State) (tr : List Ev) :
+/-- The Starknet block number of the stored head never decreases — for every state, every
+trace, no assumption on the provider (`none`, nothing stored, is the bottom). -/
+theorem l2_monotone (s : State) (tr : List Ev) :
     optLe (headL2 s) (headL2 (run true s tr)) :=
   guard_run_mono s tr
 
-/-- Code as it is: every step keeps or raises the Starknet block number of the stored head,
-provided the provider never un-finalises, delivers in order (`InOrder`) and the live events are
-consistent with one canonical chain in which log order is delivery order (`L2OrderedStrict`).
-Exactly `InOrder` is the delivery-order hypothesis: `head_spec_needs_delivery_order` shows the
-regress 50 → 40 when only it is dropped. -/
-theorem l2_monotone_partial (tr : List Ev) (x : Ev)
-    (hF : FinMono (tr ++ [x])) (hU : NoUnfinalise (tr ++ [x])) (hO : InOrder (tr ++ [x]))
-    (hL : L2OrderedStrict (tr ++ [x])) :
-    optLe (headL2 (run false (State.init none) tr))
-      (headL2 (run false (State.init none) (tr ++ [x]))) :=
-  unguarded_step_mono hF hU hO hL
-
-/-! ## subscription failures, resubscription, failed polls -/
-
-/-- Subscription errors, (failed or successful) resubscription attempts and failed polls do not
-touch the buffer or the stored head: the state after a trace is the state after its updates,
-removal notices and completed polls alone. All theorems above therefore hold through them. -/
-theorem resubscription_transparent (g : Bool) (s : State) (tr : List Ev) :
-    run g s (tr.filter isData) = run g s tr :=
-  run_filter_data g s tr
+/-! ## setL1Head: iteration order, notifications, failing database -/
 
 /-- The choice made by `setL1Head` does not depend on Go's map iteration order. -/
 theorem pick_order_independent (fin : Nat) (b₁ b₂ : Buf) (hb : b₁.NodupKeys)
     (hp : ∀ e, e ∈ b₁ ↔ e ∈ b₂) : pickMax fin b₁ = pickMax fin b₂ :=
   pickMax_perm hb hp
 
-/-! ## the geth forwarding layer -/
+/-- A failing stored-head read or write inside `setL1Head` never changes the stored head; what
+`Blockchain.SetL1Head` has already sent on the feed before a failing write is the commit of the
+candidate the poll selected (so `never_above_finalised` applies to it as well); a failure makes
+`Run` terminate only when there was a candidate. -/
+theorem db_fault_keeps_head (g : Bool) (s : State) (F : Nat) (f : DbFault) :
+    (setL1HeadFault g s F f).1.head = s.head ∨
+      (g = false ∧ f = .readErr ∧ (setL1HeadFault g s F f).1 = (setL1Head g s F).1) := by
+  unfold setL1HeadFault setL1Head
+  cases pickMax F s.buf with
+  | none => exact Or.inl rfl
+  | some c =>
+    cases f with
+    | readErr =>
+      cases g with
+      | true => exact Or.inl rfl
+      | false => exact Or.inr ⟨rfl, rfl, by simp [skipCandidate]⟩
+    | writeErr =>
+      by_cases hs : skipCandidate g s.head c = true
+      · simp [hs]
+      · simp [hs]
 
-/-- What the forwarding layer (`WatchStateUpdate`/`forwardStateUpdates`, `FilterStateUpdate`)
-hands to the client is, log by log and in order, what the L1 node delivered: same length, same L1
-block, same `removed` flag — no removal notice is ever swallowed, whatever came before it on the
-subscription (several reorgs, bursts of removed logs). Together with `live_spec` this is what makes
-"reported removed by the L1 node" and "removal notice received by the client" the same thing. -/
-theorem forward_preserves_every_log (rs : List RawLog) :
-    (forwardStream rs).length = rs.length ∧
-    (forwardStream rs).map (fun u => (u.l1, u.removed)) = rs.map (fun r => (r.l1, r.removed)) ∧
-    ∀ a b, forwardStream (a ++ b) = forwardStream a ++ forwardStream b := by
-  refine ⟨by simp [forwardStream], ?_, by intro a b; simp [forwardStream]⟩
-  simp [forwardStream, decodeLog, Function.comp_def]
-
-/-- Values in range are passed on unchanged (Starknet block numbers below 2^64, felts below P). -/
-theorem decode_in_range (r : RawLog) (h1 : r.blockNumber < 2 ^ 64) (h2 : r.blockHash < feltP)
-    (h3 : r.globalRoot < feltP) :
-    decodeLog r = ⟨r.blockNumber, r.blockHash, r.globalRoot, r.l1, r.removed⟩ := by
-  simp [decodeLog, Nat.mod_eq_of_lt h1, Nat.mod_eq_of_lt h2, Nat.mod_eq_of_lt h3]
-
-example : forwardStream [⟨1, 7, 2, 5, false⟩, ⟨1, 7, 2, 5, true⟩, ⟨3, 8, feltP + 4, 6, true⟩] =
-    [⟨7, 2, 1, 5, false⟩, ⟨7, 2, 1, 5, true⟩, ⟨8, 4, 3, 6, true⟩] := by decide
+theorem db_fault_feed (g : Bool) (s : State) (F : Nat) (f : DbFault) (h : Head)
+    (hf : (setL1HeadFault g s F f).2.1 = some h) :
+    ∃ c, pickMax F s.buf = some c ∧ h = c.toHead := by
+  unfold setL1HeadFault at hf
+  cases hp : pickMax F s.buf with
+  | none => rw [hp] at hf; cases hf
+  | some c =>
+    rw [hp] at hf
+    refine ⟨c, rfl, ?_⟩
+    cases f with
+    | readErr =>
+      cases g with
+      | true => cases hf
+      | false => simp at hf; exact hf.symm
+    | writeErr =>
+      by_cases hs : skipCandidate g s.head c = true
+      · simp [hs] at hf
+      · simp [hs] at hf; exact hf.symm
 
 /-! ## start-up catch-up -/
 
 /-- The catch-up scan is a trace of the event loop: its effect is that of delivering the scanned
-logs as updates and, if the scan completed, one poll. So every theorem above covers it. -/
+logs as updates and, if the scan completed, one poll. -/
 theorem catchup_is_trace (g : Bool) (s : State) (hist : List SU) (latest fin₁ chunk : Nat)
     (failAt : Option Nat) (fin₂ : Nat) :
     let o := catchUpLoop hist fin₁ chunk failAt latest 0 s.buf [] []
@@ -303,206 +323,156 @@ theorem catchup_spec (hist : List SU) (latest fin₁ fin₂ chunk : Nat) (b0 : B
       ∀ u ∈ hist, ¬ (u.l1 ≤ fin₂ ∧ u.l1 ≤ latest)) :=
   catchUp_pick hh hb hc hfin
 
+/-- … stated on the resulting stored head (fresh database): it is the commit of that log, or
+nothing is stored when the history has no log at or below both heights. -/
+theorem catchup_head (hist : List SU) (latest fin₁ fin₂ chunk : Nat)
+    (hh : ∀ u ∈ hist, u.removed = false) (hc : chunk ≠ 0) (hfin : fin₁ ≤ fin₂) :
+    (∃ u, CatchUpTop hist latest fin₂ u ∧
+      (catchUp true (State.init none) hist latest fin₁ chunk none fin₂).1.head = some u.toHead) ∨
+    ((∀ u ∈ hist, ¬ (u.l1 ≤ fin₂ ∧ u.l1 ≤ latest)) ∧
+      (catchUp true (State.init none) hist latest fin₁ chunk none fin₂).1.head = none) := by
+  obtain ⟨hres, hs, hn⟩ := catchUp_pick (fin₂ := fin₂) hh (histConsistent_nil hist latest) hc hfin
+  simp only [catchUp, State.init, hres, setL1Head]
+  cases hp : pickMax fin₂ (catchUpLoop hist fin₁ chunk none latest 0 [] [] []).buf with
+  | none => exact Or.inr ⟨hn hp, rfl⟩
+  | some u => exact Or.inl ⟨u, hs u hp, by simp [skipCandidate]⟩
+
 /-- Any two chunk sizes give the same stored head and the same notification. -/
 theorem catchup_equiv (g : Bool) (h : Option Head) (hist : List SU) (latest fin₁ fin₂ c c' : Nat)
     (hh : ∀ u ∈ hist, u.removed = false) (hc : c ≠ 0) (hc' : c' ≠ 0) (hfin : fin₁ ≤ fin₂) :
     (catchUp g (State.init h) hist latest fin₁ c none fin₂).1.head =
       (catchUp g (State.init h) hist latest fin₁ c' none fin₂).1.head ∧
     (catchUp g (State.init h) hist latest fin₁ c none fin₂).2.2 =
-      (catchUp g (State.init h) hist latest fin₁ c' none fin₂).2.2 := by
-  have hb := histConsistent_nil hist latest
-  have hpick := catchUp_pick_eq (fin₂ := fin₂) hh hb hb hc hc' hfin
-  have r1 := (catchUp_pick (fin₂ := fin₂) hh hb hc hfin).1
-  have r2 := (catchUp_pick (fin₂ := fin₂) hh hb hc' hfin).1
-  simp only [catchUp, State.init, r1, r2, setL1Head, hpick]
-  cases pickMax fin₂ (catchUpLoop hist fin₁ c' none latest 0 [] [] []).buf with
-  | none => simp
-  | some u => by_cases hs : skipCandidate g h u = true <;> simp [hs]
+      (catchUp g (State.init h) hist latest fin₁ c' none fin₂).2.2 :=
+  catchUp_equiv g h hist latest fin₁ fin₂ c c' hh hc hc' hfin
 
-/-- A scan cut short by a failing log query changes neither the stored head nor notifies; and a
-later complete scan on the buffer it left behind (any chunk size) ends with the same head and
-notification as a single undisturbed scan: failures and retries do not change the result. -/
-theorem catchup_retry (g : Bool) (h : Option Head) (hist : List SU)
-    (latest fin₁ fin₂ c c' : Nat) (failAt : Option Nat)
-    (hh : ∀ u ∈ hist, u.removed = false) (hc' : c' ≠ 0) (hfin : fin₁ ≤ fin₂)
-    (hfail : (catchUpLoop hist fin₁ c failAt latest 0 [] [] []).result = .failed) :
-    let s₁ := (catchUp g (State.init h) hist latest fin₁ c failAt fin₂).1
-    s₁.head = h ∧ (catchUp g (State.init h) hist latest fin₁ c failAt fin₂).2.2 = none ∧
-    (catchUp g s₁ hist latest fin₁ c' none fin₂).1.head =
-      (catchUp g (State.init h) hist latest fin₁ c' none fin₂).1.head ∧
-    (catchUp g s₁ hist latest fin₁ c' none fin₂).2.2 =
-      (catchUp g (State.init h) hist latest fin₁ c' none fin₂).2.2 := by
-  have hb := histConsistent_nil hist latest
-  have hb1 : HistConsistent hist latest (catchUpLoop hist fin₁ c failAt latest 0 [] [] []).buf :=
-    catchUp_failed_consistent hh hb
-  have hpick := catchUp_pick_eq (fin₂ := fin₂) hh hb1 hb hc' hc' hfin
-  have r1 := (catchUp_pick (fin₂ := fin₂) hh hb1 hc' hfin).1
-  have r2 := (catchUp_pick (fin₂ := fin₂) hh hb hc' hfin).1
-  simp only [catchUp, State.init, hfail, r1, r2, setL1Head, hpick]
-  cases pickMax fin₂ (catchUpLoop hist fin₁ c' none latest 0 [] [] []).buf with
-  | none => simp
-  | some u => by_cases hs : skipCandidate g h u = true <;> simp [hs]
-
-/-! ## one whole life of the client: chain-id gate, catch-up, event loop -/
-
-/-- Unless the L1 node's chain id was verified, start-up touches neither the buffer nor the stored
-head (`Run`: mismatch is fatal, cancellation while retrying; `CatchUpL1Head`: any failure). -/
-theorem chainid_gate_writes_nothing (g : Bool) (s : State) (cfg : Startup) (oneshot : Bool)
-    (h : (startUp g s cfg oneshot).2 ≠ .proceed) : (startUp g s cfg oneshot).1 = s :=
-  startUp_gate g s cfg oneshot h
-
-theorem life_blocked (g : Bool) (s : State) (cfg : Startup) (tr : List Ev)
-    (hg : ensureChainID cfg.chainId ≠ .proceed) : runLife g s cfg tr = s :=
-  runLife_blocked g s cfg tr hg
-
-/-- A whole life under `Run` is ONE trace of the event loop: the logs applied by the catch-up scan
-(and its poll, if it completed) followed by everything received afterwards; if a height could not
-be read the scan is skipped. -/
-theorem life_is_trace (g : Bool) (s : State) (cfg : Startup) (tr : List Ev) (la f1 : Nat)
-    (hg : ensureChainID cfg.chainId = .proceed) (hla : cfg.latest = some la)
-    (hf : cfg.fin₁ = some f1) :
-    runLife g s cfg tr = run g s (startUpTrace s cfg la f1 ++ tr) :=
-  runLife_trace g s cfg tr la f1 hg hla hf
-
-theorem life_skips_catchup (g : Bool) (s : State) (cfg : Startup) (tr : List Ev)
-    (hg : ensureChainID cfg.chainId = .proceed) (h : cfg.latest = none ∨ cfg.fin₁ = none) :
-    runLife g s cfg tr = run g s tr :=
-  runLife_skip g s cfg tr hg h
-
-/-- `head_spec` for the combined start-up + run trace (fresh database): whatever the chunk size,
-wherever a log query failed, whatever is delivered afterwards (duplicates of scanned logs, late
-logs, reorgs) — after every poll of the life the stored head is the commit of an event of the
-highest L1 block at or below the reported finalised height among ALL logs the life has received,
-scanned or subscribed, that were not reported removed. -/
-theorem head_spec_life (cfg : Startup) (tr : List Ev) (la f1 F : Nat)
-    (hg : ensureChainID cfg.chainId = .proceed) (hla : cfg.latest = some la)
-    (hf : cfg.fin₁ = some f1)
-    (hF : FinMono (startUpTrace (State.init none) cfg la f1 ++ tr ++ [.tick F]))
-    (hU : NoUnfinalise (startUpTrace (State.init none) cfg la f1 ++ tr ++ [.tick F]))
-    (hL : L2Ordered (startUpTrace (State.init none) cfg la f1 ++ tr ++ [.tick F])) :
-    ((∀ e ∈ live (startUpTrace (State.init none) cfg la f1 ++ tr), ¬ e.2.l1 ≤ F) ∧
-      (runLife true (State.init none) cfg (tr ++ [.tick F])).head = none) ∨
-    (∃ e ∈ live (startUpTrace (State.init none) cfg la f1 ++ tr), e.2.l1 ≤ F ∧
-      (∀ c ∈ live (startUpTrace (State.init none) cfg la f1 ++ tr), c.2.l1 ≤ F → c.2.l1 ≤ e.2.l1) ∧
-      (runLife true (State.init none) cfg (tr ++ [.tick F])).head = some e.2.toHead) := by
-  have e := runLife_trace true (State.init none) cfg (tr ++ [Ev.tick F]) la f1 hg hla hf
-  rw [e, ← List.append_assoc]
-  exact head_spec_guarded _ F hF hU hL
-
-/-- The provider hypotheses are not assumptions about the catch-up part of a life: the trace the
-scan amounts to satisfies them by itself whenever the node's log history is what `eth_getLogs` of
-one canonical chain returns (no removed logs, a later L1 block commits a later Starknet block). -/
-theorem startup_trace_wellbehaved (s : State) (cfg : Startup) (la f1 : Nat)
-    (hn : ∀ u ∈ cfg.hist, u.removed = false)
-    (ho : ∀ x ∈ cfg.hist, ∀ y ∈ cfg.hist, x.l1 < y.l1 → x.l2 < y.l2) :
-    FinMono (startUpTrace s cfg la f1) ∧ NoUnfinalise (startUpTrace s cfg la f1) ∧
-      L2Ordered (startUpTrace s cfg la f1) :=
-  startUpTrace_wellbehaved s cfg la f1 hn ho
+/-- A scan cut short by a failing log query neither changes the stored head nor notifies (what
+follows it — the event loop running on the partial buffer — is `life_is_trace`). -/
+theorem catchup_failure_writes_nothing (g : Bool) (s : State) (hist : List SU)
+    (latest fin₁ fin₂ c : Nat) (failAt : Option Nat)
+    (hfail : (catchUpLoop hist fin₁ c failAt latest 0 s.buf [] []).result = .failed) :
+    (catchUp g s hist latest fin₁ c failAt fin₂).1.head = s.head ∧
+    (catchUp g s hist latest fin₁ c failAt fin₂).2.2 = none := by
+  simp [catchUp, hfail]
 
 /-! ## the L1-head feed -/
 
 /-- A subscriber of the L1-head feed (one-slot buffer, a value is skipped when the slot is full)
-receives, in order, a subsequence of the heads that were set — whatever the interleaving of sends
-and receives. (It may miss heads, including the latest one, if it is slow; it never sees a head
-that was not set, nor an older head after a newer one.) -/
+receives, in order, a subsequence of the heads that were sent — whatever the interleaving. -/
 theorem feed_in_order (ops : List FeedOp) :
     (subRun {} ops).received.Sublist (sentOf ops) := by
   have h := feed_invariant ops {} [] (by simp)
   simp only [List.nil_append] at h
   exact List.Sublist.trans (List.sublist_append_left _ _) h
 
-/-! ## non-vacuity: the hypotheses are satisfiable by non-trivial traces -/
+/-! ## regression witness for the defect repaired by commit 5084dce (NOT about the current code) -/
 
-/-- Restart with the head of L1 block 3 stored; a log of block 2 (older) and one of block 6 arrive. -/
-example : (run true (State.init (some ⟨7, 0x70, 0x1070⟩))
-    [.upd ⟨6, 0x60, 0x1060, 2, false⟩, .tick 4, .upd ⟨8, 0x81, 0x1081, 6, false⟩, .tick 4]).head =
-    some ⟨7, 0x70, 0x1070⟩ := by decide
-example : (run true (State.init (some ⟨7, 0x70, 0x1070⟩))
-    [.upd ⟨6, 0x60, 0x1060, 2, false⟩, .tick 4, .upd ⟨8, 0x81, 0x1081, 6, false⟩, .tick 6]).head =
-    some ⟨8, 0x81, 0x1081⟩ := by decide
-example : ensureChainID [.err, .err, .ok] = .proceed ∧ ensureChainID [.err, .mismatch] = .fatal ∧
-    checkChainIDOnce [.err, .ok] = .fatal := by decide
-example : (subRun {} [.send ⟨1, 1, 1⟩, .send ⟨2, 2, 2⟩, .recv, .send ⟨3, 3, 3⟩, .recv]).received =
-    [⟨1, 1, 1⟩, ⟨3, 3, 3⟩] := by decide
+def e100 : SU := ⟨50, 0x500, 0x1500, 100, false⟩
+def e90 : SU := ⟨40, 0x400, 0x1400, 90, false⟩
 
-/-- An in-order, well-behaved trace with a reorg: block 5 event, reorged away (removal notice),
-replaced by a block 6 event, finalised at 7. -/
-def goodTrace : List Ev :=
-  [.upd ⟨7, 0x70, 0x1070, 3, false⟩, .tick 3, .upd ⟨8, 0x80, 0x1080, 5, false⟩,
-   .upd ⟨8, 0x80, 0x1080, 5, true⟩, .upd ⟨8, 0x81, 0x1081, 6, false⟩]
-
-example : (run false (State.init none) (goodTrace ++ [.tick 7])).head = some ⟨8, 0x81, 0x1081⟩ := by
+/-- Before 5084dce (`guard = false`) a log delivered late moved the head back from Starknet block
+50 to 40; the current code keeps 50 on the same trace. -/
+theorem late_log_regress_before_5084dce :
+    (run false (State.init none) [.upd e100, .tick 200, .upd e90, .tick 200]).head = some e90.toHead ∧
+    (run true (State.init none) [.upd e100, .tick 200, .upd e90, .tick 200]).head = some e100.toHead := by
   decide
-example : live goodTrace = [(4, ⟨8, 0x81, 0x1081, 6, false⟩), (0, ⟨7, 0x70, 0x1070, 3, false⟩)] := by
-  decide
-example : IsTop 7 (live goodTrace) (4, ⟨8, 0x81, 0x1081, 6, false⟩) := by
-  refine ⟨by decide, by decide, ?_⟩
-  intro c hc _
-  have : live goodTrace = [(4, ⟨8, 0x81, 0x1081, 6, false⟩), (0, ⟨7, 0x70, 0x1070, 3, false⟩)] := by
-    decide
-  rw [this] at hc
-  simp at hc
-  rcases hc with rfl | rfl
-  · exact Or.inr ⟨rfl, Nat.le_refl _⟩
-  · exact Or.inl (by decide)
 
-example : FinMono (goodTrace ++ [.tick 7]) ∧ NoUnfinalise (goodTrace ++ [.tick 7]) ∧
-    InOrder (goodTrace ++ [.tick 7]) := by
-  refine ⟨?_, ?_, ?_⟩
-  · have h1 : FinMono ([] ++ [Ev.upd ⟨7, 0x70, 0x1070, 3, false⟩]) :=
-      finMono_snoc finMono_nil (by intro F h; cases h)
-    have h2 := finMono_snoc (x := Ev.tick 3) h1
-      (by intro F _ F' h'; simp [lastFin, lastFinR, finStep] at h')
-    have h3 := finMono_snoc (x := Ev.upd ⟨8, 0x80, 0x1080, 5, false⟩) h2 (by intro F h; cases h)
-    have h4 := finMono_snoc (x := Ev.upd ⟨8, 0x80, 0x1080, 5, true⟩) h3 (by intro F h; cases h)
-    have h5 := finMono_snoc (x := Ev.upd ⟨8, 0x81, 0x1081, 6, false⟩) h4 (by intro F h; cases h)
+/-! ## non-vacuity: the hypothesis sets of the theorems above are satisfiable -/
+
+def logC : SU := ⟨7, 0x70, 0x1070, 3, false⟩
+def logD : SU := ⟨8, 0x80, 0x1080, 5, false⟩
+def logD' : SU := ⟨8, 0x81, 0x1081, 6, false⟩
+/-- A reorg in the right order: D@5 delivered, reported removed, replaced by D'@6. -/
+def goodTrace : List Ev := [.upd logC, .tick 3, .upd logD, .upd { logD with removed := true }, .upd logD']
+
+theorem goodTrace_hyps : FinMono (goodTrace ++ [.tick 7]) ∧ NoUnfinalise (goodTrace ++ [.tick 7]) ∧
+    L2OrderedStrict (goodTrace ++ [.tick 7]) ∧ StoredOrd none 0 (goodTrace ++ [.tick 7]) ∧
+    Settled goodTrace := by
+  refine ⟨?_, ?_, ?_, (by intro h hh; cases hh), ?_⟩
+  · have h1 : FinMono ([] ++ [Ev.upd logC]) := finMono_snoc finMono_nil (by intro F h; cases h)
+    have h2 := finMono_snoc (x := Ev.tick 3) h1 (by
+      intro F _ F' h'; change none = some F' at h'; cases h')
+    have h3 := finMono_snoc (x := Ev.upd logD) h2 (by intro F h; cases h)
+    have h4 := finMono_snoc (x := Ev.upd { logD with removed := true }) h3 (by intro F h; cases h)
+    have h5 := finMono_snoc (x := Ev.upd logD') h4 (by intro F h; cases h)
     exact finMono_snoc h5 (by
       intro F h F' h'
       cases h
       change some 3 = some F' at h'
       cases h'
       decide)
-  · have h1 : NoUnfinalise ([] ++ [Ev.upd ⟨7, 0x70, 0x1070, 3, false⟩]) :=
+  · have h1 : NoUnfinalise ([] ++ [Ev.upd logC]) :=
       noUnfinalise_snoc noUnfinalise_nil (by intro r h hr; cases h; cases hr)
     have h2 := noUnfinalise_snoc (x := Ev.tick 3) h1 (by intro r h; cases h)
-    have h3 := noUnfinalise_snoc (x := Ev.upd ⟨8, 0x80, 0x1080, 5, false⟩) h2
-      (by intro r h hr; cases h; cases hr)
-    have h4 := noUnfinalise_snoc (x := Ev.upd ⟨8, 0x80, 0x1080, 5, true⟩) h3 (by
+    have h3 := noUnfinalise_snoc (x := Ev.upd logD) h2 (by intro r h hr; cases h; cases hr)
+    have h4 := noUnfinalise_snoc (x := Ev.upd { logD with removed := true }) h3 (by
       intro r h _ F hF
       cases h
-      simp [lastFin, lastFinR, finStep] at hF
-      subst hF; decide)
-    have h5 := noUnfinalise_snoc (x := Ev.upd ⟨8, 0x81, 0x1081, 6, false⟩) h4
-      (by intro r h hr; cases h; cases hr)
+      change some 3 = some F at hF
+      cases hF; decide)
+    have h5 := noUnfinalise_snoc (x := Ev.upd logD') h4 (by intro r h hr; cases h; cases hr)
     exact noUnfinalise_snoc h5 (by intro r h; cases h)
-  · have h1 : InOrder ([] ++ [Ev.upd ⟨7, 0x70, 0x1070, 3, false⟩]) :=
-      inOrder_snoc inOrder_nil (by intro u _ _ F hF; simp [lastFin, lastFinR] at hF)
-    have h2 := inOrder_snoc (x := Ev.tick 3) h1 (by intro u h; cases h)
-    have h3 := inOrder_snoc (x := Ev.upd ⟨8, 0x80, 0x1080, 5, false⟩) h2 (by
-      intro u h _ F _ c hc _
-      cases h
-      have : c = (0, ⟨7, 0x70, 0x1070, 3, false⟩) := by
-        have hl : live ([] ++ [Ev.upd ⟨7, 0x70, 0x1070, 3, false⟩] ++ [Ev.tick 3]) =
-          [(0, ⟨7, 0x70, 0x1070, 3, false⟩)] := by decide
-        rw [hl] at hc; simpa using hc
-      subst this; decide)
-    have h4 := inOrder_snoc (x := Ev.upd ⟨8, 0x80, 0x1080, 5, true⟩) h3
-      (by intro u h hr; cases h; cases hr)
-    have h5 := inOrder_snoc (x := Ev.upd ⟨8, 0x81, 0x1081, 6, false⟩) h4 (by
-      intro u h _ F hF c hc hcF
-      cases h
-      simp [lastFin, lastFinR, finStep] at hF
-      subst hF
-      have hl : live ([] ++ [Ev.upd ⟨7, 0x70, 0x1070, 3, false⟩] ++ [Ev.tick 3] ++
-          [Ev.upd ⟨8, 0x80, 0x1080, 5, false⟩] ++ [Ev.upd ⟨8, 0x80, 0x1080, 5, true⟩]) =
-        [(0, ⟨7, 0x70, 0x1070, 3, false⟩)] := by decide
-      rw [hl] at hc
-      have : c = (0, ⟨7, 0x70, 0x1070, 3, false⟩) := by simpa using hc
-      subst this; decide)
-    exact inOrder_snoc h5 (by intro u h; cases h)
+  · have h1 : L2OrderedStrict ([] ++ [Ev.upd logC]) :=
+      l2OrderedStrict_snoc l2OrderedStrict_nil (by decide) (by decide)
+    have h2 := l2OrderedStrict_snoc (x := Ev.tick 3) h1 (by decide) (by decide)
+    have h3 := l2OrderedStrict_snoc (x := Ev.upd logD) h2 (by decide) (by decide)
+    have h4 := l2OrderedStrict_snoc (x := Ev.upd { logD with removed := true }) h3
+      (by decide) (by decide)
+    have h5 := l2OrderedStrict_snoc (x := Ev.upd logD') h4 (by decide) (by decide)
+    exact l2OrderedStrict_snoc h5 (by decide) (by decide)
+  · intro a u b hab hr ⟨r, hrb, hrm, hle⟩
+    have hlen : a.length < 5 := by
+      have : (a ++ Ev.upd u :: b).length = 5 := by rw [← hab]; rfl
+      simp at this; omega
+    have hget : goodTrace[a.length]? = some (Ev.upd u) := by rw [hab]; simp
+    have hb : b = goodTrace.drop (a.length + 1) := by rw [hab]; simp
+    match hl : a.length, hlen with
+    | 0, _ =>
+      rw [hl] at hget hb
+      simp [goodTrace] at hget; subst hget
+      rw [hb] at hrb
+      simp [goodTrace] at hrb
+      rcases hrb with h | h | h <;> subst h <;> first | exact absurd hrm (by decide) | exact absurd hle (by decide)
+    | 1, _ => rw [hl] at hget; simp [goodTrace] at hget
+    | 2, _ =>
+      rw [hl] at hget hb
+      simp [goodTrace] at hget; subst hget
+      exact ⟨{ logD with removed := true }, by rw [hb]; simp [goodTrace], rfl, ⟨rfl, rfl, rfl, rfl⟩⟩
+    | 3, _ => rw [hl] at hget; simp [goodTrace] at hget; subst hget; exact absurd hr (by decide)
+    | 4, _ =>
+      rw [hl] at hb
+      rw [hb] at hrb
+      simp [goodTrace] at hrb
 
-/-- Catch-up: chunk sizes 1 and 4 over a history with two logs in L1 block 3 and one in block 8,
-latest 9, finalised 5: both pick the second log of block 3. -/
+/-- … and on it the theorem gives the replacement log D' as head. -/
+example : (run true (State.init none) (goodTrace ++ [.tick 7])).head = some logD'.toHead := by decide
+
+/-- `StoredOrd` on a trace that REPLACES an older stored head (stored: Starknet block 7 from L1
+block 3; a log of block 2 arrives late, then one of block 6). -/
+def storedTrace : List Ev := [.upd ⟨6, 0x60, 0x1060, 2, false⟩, .tick 4, .upd ⟨8, 0x81, 0x1081, 6, false⟩]
+example : StoredOrd (some ⟨7, 0x70, 0x1070⟩) 3 (storedTrace ++ [.tick 6]) := by
+  intro h hh a b hab x hx
+  cases hh
+  -- every prefix's live set consists of the two logs; check both
+  have hmem : x.2 = ⟨6, 0x60, 0x1060, 2, false⟩ ∨ x.2 = ⟨8, 0x81, 0x1081, 6, false⟩ := by
+    obtain ⟨a', b', hab', _, _, _⟩ := (mem_live_iff a x.1 x.2).mp hx
+    have : Ev.upd x.2 ∈ storedTrace ++ [.tick 6] := by rw [hab, hab']; simp
+    simp [storedTrace] at this
+    exact this
+  rcases hmem with h | h <;> rw [h] <;> decide
+example : (run true (State.init (some ⟨7, 0x70, 0x1070⟩)) (storedTrace ++ [.tick 4])).head =
+    some ⟨7, 0x70, 0x1070⟩ ∧
+    (run true (State.init (some ⟨7, 0x70, 0x1070⟩)) (storedTrace ++ [.tick 6])).head =
+    some ⟨8, 0x81, 0x1081⟩ := by decide
+
+example : ensureChainID [.err, .err, .ok] = .proceed ∧ ensureChainID [.err, .mismatch] = .fatal ∧
+    checkChainIDOnce [.err, .ok] = .fatal := by decide
+example : (subRun {} [.send ⟨1, 1, 1⟩, .send ⟨2, 2, 2⟩, .recv, .send ⟨3, 3, 3⟩, .recv]).received =
+    [⟨1, 1, 1⟩, ⟨3, 3, 3⟩] := by decide
+example : (setL1HeadFault true ⟨[(5, logD)], some ⟨7, 0x70, 0x1070⟩⟩ 9 .writeErr) =
+    (⟨[], some ⟨7, 0x70, 0x1070⟩⟩, some logD.toHead, true) := by decide
+
+/-- Catch-up: a history with two logs in L1 block 3 and one in block 8, latest 9, finalised 5. -/
 def hist3 : List SU := [⟨1, 0x10, 0x1010, 3, false⟩, ⟨2, 0x20, 0x1020, 3, false⟩, ⟨3, 0x30, 0x1030, 8, false⟩]
 example : (∀ u ∈ hist3, u.removed = false) ∧ HistConsistent hist3 9 [] :=
   ⟨by decide, histConsistent_nil _ _⟩
